@@ -18,12 +18,12 @@ CHECKS = {
         ref="6/C01, 12.6",
     ),
     "C02": dict(
-        text="Every clause of the weight/evidence/ESS specification is an SMT obligation over all log-density vectors of N<=3 (quick) / N<=5 (thorough) samples, on every feasible path of the real Samples.compute_weights / logsumexp / effective_sample_size / rejection_sample; two-run hyper-properties (permutation, constant shift) are proved in one query. The float clause is decided in the FP sort (Float64 and Float32, N=2; N=3 thorough): for all finite log-weights up to 1e5 and for vectors with -inf entries, log_evidence and the ESS are finite and the relative evidence error is never NaN.",
+        text="Every clause of the weight/evidence/ESS specification is an SMT obligation over all log-density vectors of N<=3 (quick) / N<=5 (thorough) samples, on every feasible path of the real Samples.compute_weights / logsumexp / effective_sample_size / rejection_sample; two-run hyper-properties (permutation, constant shift) are proved in one query. The float clause is decided in the FP sort (Float64 and Float32, N=2; N=3 thorough): for all finite log-weights up to 1e5 and for vectors with -inf entries, log_evidence and the ESS are finite and the relative evidence error is never NaN. Histories on one object (inspect, change the log-densities, compute_weights() again; constructor handed an evidence together with all three log-densities; fill-in-then-compute as the importance sampler does) and selections by every index vector of length M (repeats included, M = N too): the weights, ESS and efficiency are those of the object's current rows.",
         note="Reals for floats (ulp rounding outside); generic namespace branch only; generator stub returns arbitrary draws in (0,1); float constants equal to math.log(k) are read as ln k; FP exp/log are uninterpreted with range/monotonicity axioms, FP arithmetic is first abstracted soundly; accuracy (as opposed to finiteness) at extreme magnitudes is not decided.",
         ref="6/C02",
     ),
     "C03": dict(
-        text="Partial. The real ZukoFlow / FlowJax log_prob, sample_and_log_prob, sample, forward and inverse (code objects re-bound so that tensor construction is the identity on symbolic arrays) over the real FlowTransform built by the real Aspire.init_flow wiring (logit / probit / off, affine as wired), with an abstract network (base density uninterpreted, bijection with an exact inverse): log_prob(x) = B(T x) + log|det T'(x)| with the Jacobian obtained by symbolic differentiation of the executed forward map; the log-density attached to drawn samples equals log_prob at those samples; draws lie strictly inside the declared bounds; forward/inverse are mutual inverses with opposite log-Jacobians, for all bounds, all fitted affine states and all points outside the clipping margin.",
+        text="Partial. The real ZukoFlow / FlowJax log_prob, sample_and_log_prob, sample, forward and inverse (code objects re-bound so that tensor construction is the identity on symbolic arrays) over the real FlowTransform built by the real Aspire.init_flow wiring (logit / probit / off, affine as wired), with an abstract network (base density uninterpreted, bijection with an exact inverse): log_prob(x) = B(T x) + log|det T'(x)| with the Jacobian obtained by symbolic differentiation of the executed forward map; the log-density attached to drawn samples equals log_prob at those samples; draws lie strictly inside the declared bounds; forward/inverse are mutual inverses with opposite log-Jacobians, for all bounds, all fitted affine states and all points outside the clipping margin. Every function, property and classmethod of the wrapper classes is re-bound (compilation decorators such as jit / filter_jit are the identity), and the agreement clauses are posed again after the network has been replaced by a (re-)fit: evaluation must follow the network that sampling uses.",
         note="The trained network is abstract (a normalised third-party flow is trusted); quadrature of the density, training, float32 and save/load of weights are outside; d=1 (quick) / 2 (thorough), batch 2; draws inside the eps=1e-6 clipping margin are outside.",
         ref="6/C03",
     ),
@@ -38,12 +38,12 @@ CHECKS = {
         ref="6/C05",
     ),
     "C06": dict(
-        text="Step: on every feasible bisection path of the real determine_beta over all populations (N<=3/4), symbolic target efficiency (scalar / ramp) and the three min-step modes: no exception, beta_prev < beta' <= 1, floor honoured, rescaled min_step valid. Fixed schedule: n_steps is a symbolic bit-vector, 1/n an FP division, the real (logging-stripped) sample() loop runs in Float64 and the solver shows exactly n iterations ending at exactly 1.0 for every n in the bound. Loop-level termination is covered by the C08 loop harness obligations labelled c06/*.",
-        note="Temperatures/tolerance concrete dyadic; n_steps <= 12 (quick) / 64 (thorough); population stubbed out in the fixed-schedule harness (ladder independent of it when adaptive=False); known finding C06-D4 (beta stuck with min_step=0) listed in known_findings.json.",
+        text="Step: on every feasible bisection path of the real determine_beta over all populations (N<=3/4), symbolic target efficiency (scalar / ramp) and the three min-step modes: no exception, beta_prev < beta' <= 1, floor honoured, rescaled min_step valid. Fixed schedule: n_steps is a symbolic bit-vector, 1/n an FP division, the real (logging-stripped) sample() loop runs in Float64 and the solver shows exactly n iterations ending at exactly 1.0 for every n in the bound. Whole runs (loop harness) incl. non-degenerate adaptive N=2 runs (target 0.75), a binding step cap, and runs interrupted and resumed from the serialised payload and from the live dictionary: ladder strictly increasing in (0,1], ends at exactly 1 (or at the cap), fixed schedules perform exactly n iterations, the interrupted and the resumed part together move the population exactly as often as the uninterrupted run.",
+        note="Temperatures/tolerance concrete dyadic (beta_prev in {0, 1/2, 3/4}: the last makes the floor beta_prev + min_step exceed 1); n_steps <= 12 (quick) / 52 (thorough); population stubbed out in the fixed-schedule harness (ladder independent of it when adaptive=False); known finding C06-D4 (beta stuck with min_step=0) listed in known_findings.json.",
         ref="6/C06",
     ),
     "C07": dict(
-        text="On every feasible bisection path of the real determine_beta: the chosen temperature meets the ESS target in force at the current temperature (spec-side ESS written independently over exp atoms), some probe within the tolerance above it fails the target (maximality), a full step that meets the target is taken, and floor-forced steps are exactly the floor; for all populations, symbolic scalar/ramped targets, tolerance 1/4 (1/8 thorough).",
+        text="On every feasible bisection path of the real determine_beta: the chosen temperature meets the ESS target in force at the current temperature (spec-side ESS written independently over exp atoms), some probe within the tolerance above it fails the target (maximality), a full step that meets the target is taken, and floor-forced steps are exactly the floor; for all populations, symbolic scalar/ramped targets, tolerance 1/4 (1/8 thorough); also after histories of the public target_efficiency setter on one sampler object (ramp then scalar, scalar then ramp, three settings in a row): the target in force is the last one set.",
         note="Temperatures and tolerance concrete dyadic rationals; symbolic targets written to the sampler's private fields (the public setter is exercised with floats); N<=3 quick, N<=4 thorough.",
         ref="6/C07",
     ),
@@ -63,13 +63,13 @@ CHECKS = {
         ref="6/C11",
     ),
     "C12": dict(
-        text="Partial. Cadence: checkpoint_every is a symbolic integer in {1,2,3}; the callback sequence equals {t: t mod every = 0} plus the forced final one and every payload carries the loop's current population, temperature and history length. After a fault at every likelihood call the real HDF5 file holds byte-for-byte the most recent payload; through the real Aspire.sample_posterior the interrupted run's file additionally holds /aspire_config and /flow and is accepted by Aspire.resume_from_file. Blob overwrite: the real dump_pickle_to_hdf against a dataset model with symbolic old/new lengths leaves exactly the new blob (length and content at every index).",
+        text="Partial. Cadence: checkpoint_every is a symbolic integer in {0,1,2,3} (0 = no periodic checkpoint), with a user callback and through the documented file route (the sampler's own file callback, observed while it writes the real file); the callback sequence equals {t: t mod every = 0} plus the forced final one and every payload carries the loop's current population, temperature and history length. After a fault at every likelihood call the real HDF5 file holds byte-for-byte the most recent payload; through the real Aspire.sample_posterior the interrupted run's file additionally holds /aspire_config and /flow and is accepted by Aspire.resume_from_file. Blob overwrite: the real dump_pickle_to_hdf against a dataset model with symbolic old/new lengths leaves exactly the new blob (length and content at every index).",
         note="Loop harness bounds: N=2 (quick) / N<=3 (thorough) particles, d=1, <=2 (quick) / <=4 (thorough) iterations, schedules fixed 1/2(/4), adaptive with min_step 1/2 (and max_n_steps, unbounded in thorough; paths reaching the unrolling bound are counted as cut); user functions, proposal, generator and MCMC kernels are stubs (uninterpreted functions / symbolic streams / fake kernel modules); SMCSampler.sample is a logging-stripped copy of the current source with beta_tolerance 1/4. Atomicity of a write interrupted inside h5py and the consistency of /aspire_config and /flow with the checkpoint (C14) are outside.",
         ref="6/C12",
     ),
     "C14": dict(
         engine="CH",
-        text="CrossHair explores every program of up to 3 (quick) / 4 (thorough) operations over 10 operation kinds (fit with/without path and overwrite, importance/SMC sampling with explicit, automatic or no checkpoint path, auto_checkpoint contexts with refit inside, resume_from_file then sample) on one file through the real Aspire.fit / sample_posterior / auto_checkpoint / resume_from_file / save_config / save_flow / load_flow; after every operation the stored proposal must be the one the stored checkpoint was weighted under, the stored configuration must name the sampler that wrote it, and a resumed sampler must not receive a population weighted under another proposal. Only 'Confirmed over all paths' counts; one condition per first operation keeps each search exhaustible.",
+        text="CrossHair explores every program of up to 3 (quick) / 4 (thorough) operations over 12 operation kinds (fit with/without path and overwrite, importance/SMC sampling with explicit, automatic or no checkpoint path, auto_checkpoint contexts with refit inside, resume_from_file then sample, an explicit resume_from=None, resume_from_file then refit then an explicit fresh start) on one file through the real Aspire.fit / sample_posterior / auto_checkpoint / resume_from_file / save_config / save_flow / load_flow; after every operation the stored proposal must be the one the stored checkpoint was weighted under, the stored configuration must name the sampler that wrote it, and a resumed sampler must not receive a population weighted under another proposal. Only 'Confirmed over all paths' counts; one condition per first operation keeps each search exhaustible.",
         note="File, flow and samplers are dict-backed fakes (flow identity tags); five known-finding regions (C14-D8a..e, known_findings.json) are excluded by violated clause and operation kind and each is re-confirmed concretely on every run.",
         ref="6/C14",
     ),
@@ -80,12 +80,12 @@ CHECKS = {
     ),
     "C19": dict(
         engine="CH",
-        text="CrossHair confirms over all paths that for every nesting (depth <= 3 quick, 4 thorough) of the real enable_pool/PoolHandler and auto_checkpoint contexts, with an exception injected at every position or none, both close_pool values, parallelize_prior on/off, pre-existing checkpoint defaults or none and same-path or distinct-path nesting: log_likelihood, log_prior and _checkpoint_defaults are the identical objects with unchanged content after leaving each level, and each pool is closed exactly once iff asked.",
+        text="CrossHair confirms over all paths that for every nesting (depth <= 3 quick, 4 thorough) of the real enable_pool/PoolHandler and auto_checkpoint contexts, with an exception injected at every position or none, both close_pool values, parallelize_prior on/off, pre-existing checkpoint defaults or none and same-path or distinct-path nesting: log_likelihood, log_prior and _checkpoint_defaults are the identical objects with unchanged content after leaving each level, and each pool is closed exactly once iff asked; also when the pool's own close() or join() raises (depth <= 2), and when the auto_checkpoint handles are created up front or inside an already finished context and entered later.",
         note="Pool is a fake counting close()/join(); an exception raised inside __enter__ itself is outside.",
         ref="6/C19",
     ),
     "C17": dict(
-        text="The likelihood stub poses, at every call made during whole runs (initial draws, kernel target evaluations, post-mutation re-evaluation, final enlargement, resumed runs), the obligations that the sample set it receives carries a log_prior of the right length equal to PI of exactly those coordinates, and at the end that n_likelihood_evaluations equals the number of points it was asked for; function-level configurations cover the importance sampler, Aspire.convert_to_samples and, in the FP sort (prior may be -inf per point), the multi-round initial draw and the kernel targets when every point is outside the prior.",
+        text="The likelihood stub poses, at every call made during whole runs (initial draws, kernel target evaluations, post-mutation re-evaluation, final enlargement, resumed runs), the obligations that the sample set it receives carries a log_prior of the right length equal to PI of exactly those coordinates, and at the end that n_likelihood_evaluations equals the number of points it was asked for; for a sampler that resumed an interrupted run (resume in memory, and from the file left by a fault injected at every likelihood call) the reported count is the points asked of this sampler or those plus all points asked of the interrupted run -- nothing else; function-level configurations cover the importance sampler, the plain MCMC samplers (Emcee, MiniPCN over fake kernels), Aspire.convert_to_samples and, in the FP sort (prior may be -inf per point), the multi-round initial draw and the kernel targets when every point is outside the prior.",
         note="Loop harness bounds: N=2 (quick) / N<=3 (thorough) particles, d=1, <=2 (quick) / <=4 (thorough) iterations, schedules fixed 1/2(/4), adaptive with min_step 1/2 (and max_n_steps, unbounded in thorough; paths reaching the unrolling bound are counted as cut); user functions, proposal, generator and MCMC kernels are stubs (uninterpreted functions / symbolic streams / fake kernel modules); SMCSampler.sample is a logging-stripped copy of the current source with beta_tolerance 1/4.",
         ref="6/C17",
     ),
